@@ -171,6 +171,10 @@ pub struct C18 {
 
 impl C18 {
     fn check(&mut self, s: &mut Session, ctx: &mut Ctx, canon: bool) -> Option<String> {
+        if !crate::rec::kids_match_stored_edges(s.g.as_ref()) {
+            ctx.c.inc("c18.kids()-disagrees-with-the-stored-edges(no reference for edges, skipped)");
+            return None;
+        }
         let xml = match guarded(|| s.g.to_xml()) {
             Ok(Ok(x)) => x,
             Ok(Err(e)) => return Some(format!("to_xml() returned Err: {e}")),
@@ -467,6 +471,10 @@ pub fn parse_debug(txt: &str) -> Result<Parsed, String> {
 
 impl C20 {
     fn check(&mut self, s: &mut Session, ctx: &mut Ctx, all: bool) -> Option<String> {
+        if !crate::rec::kids_match_stored_edges(s.g.as_ref()) {
+            ctx.c.inc("c20.kids()-disagrees-with-the-stored-edges(no reference for edges, skipped)");
+            return None;
+        }
         let keys = s.g.keys();
         let real = crate::rec::real_data(s.g.as_ref());
         let keyset: BTreeSet<usize> = keys.iter().copied().collect();
